@@ -24,7 +24,9 @@ PROPERTY = "C04"
 TRACE = "T_SchemaRel"
 ENUM = {
     "quick":    [dict(module="MC_SchemaRel", cfg="MC_SchemaRel_quick.cfg", workers=8)],
-    "thorough": [dict(module="MC_SchemaRel", cfg="MC_SchemaRel_thorough.cfg", workers=16, coverage=True)],
+    # ClipCrash (TypeError inside the validator) is a branch of the as-found "before" validator only
+    "thorough": [dict(module="MC_SchemaRel", cfg="MC_SchemaRel_thorough.cfg", workers=16, coverage=True,
+                      may_be_unused=["ClipCrash"])],
 }
 POOL = 12
 CHUNK = 4000
@@ -73,8 +75,11 @@ def _ann(k):
     return data.SoundEventAnnotation(uuid=U(ANN_ID + k), sound_event=_se(k), created_on=T0)
 
 
+K = 6                      # universe numbers 1..K for annotations and for predictions (enumerated cases use 1..3)
+
+
 def _pred(k):
-    return data.SoundEventPrediction(uuid=U(PRED_ID + k), sound_event=_se(3 + k), score=0.5)
+    return data.SoundEventPrediction(uuid=U(PRED_ID + k), sound_event=_se(K + k), score=0.5)
 
 
 def _attempt(fn):
@@ -125,8 +130,8 @@ def _pairing_clips(pairing):
 def _ce_stored(ce):
     if ce is None:
         return {"same_clip": False, "anns": [], "preds": [], "ms": []}
-    ann_of = {U(ANN_ID + k): k for k in (1, 2, 3)}
-    pred_of = {U(PRED_ID + k): k for k in (1, 2, 3)}
+    ann_of = {U(ANN_ID + k): k for k in range(1, K + 1)}
+    pred_of = {U(PRED_ID + k): k for k in range(1, K + 1)}
     return {"same_clip": ce.annotations.clip.uuid == ce.predictions.clip.uuid,
             "anns": [ann_of.get(a.uuid, 9) for a in ce.annotations.sound_events],
             "preds": [pred_of.get(p.uuid, 9) for p in ce.predictions.sound_events],
@@ -183,13 +188,13 @@ def _ce(case):
             "uuid": str(U(0x80)), "collection_type": "evaluation", "created_on": T0S, "evaluation_task": "t",
             "recordings": recs, "clips": clips,
             "sound_events": [{"uuid": str(U(SE_ID + k)), "recording": str(U(1)),
-                              "geometry": {"type": "TimeInterval", "coordinates": [1.0, 2.0]}} for k in range(1, 7)],
+                              "geometry": {"type": "TimeInterval", "coordinates": [1.0, 2.0]}} for k in range(1, 2 * K + 1)],
             "sound_event_annotations": [{"uuid": str(U(ANN_ID + k)), "sound_event": str(U(SE_ID + k)), "created_on": T0S}
-                                        for k in (1, 2, 3)],
+                                        for k in range(1, K + 1)],
             "clip_annotations": [{"uuid": str(U(0x60)), "clip": str(U(CLIP_ID["A"])), "created_on": T0S,
                                   "sound_events": [str(U(ANN_ID + k)) for k in range(1, na + 1)]}],
-            "sound_event_predictions": [{"uuid": str(U(PRED_ID + k)), "sound_event": str(U(SE_ID + 3 + k)), "score": 0.5}
-                                        for k in (1, 2, 3)],
+            "sound_event_predictions": [{"uuid": str(U(PRED_ID + k)), "sound_event": str(U(SE_ID + K + k)), "score": 0.5}
+                                        for k in range(1, K + 1)],
             "clip_predictions": [{"uuid": str(U(0x61)), "clip": pred_clip,
                                   "sound_events": [str(U(PRED_ID + k)) for k in range(1, np_ + 1)]}],
             "matches": [dict({"uuid": str(U(MATCH_ID + i)), "affinity": 0.5},
@@ -244,9 +249,9 @@ def _match(case):
                "recordings": [REC_DOC],
                "clips": [{"uuid": str(U(0x10)), "recording": str(U(1)), "start_time": 0.0, "end_time": 10.0}],
                "sound_events": [{"uuid": str(U(SE_ID + k)), "recording": str(U(1)),
-                                 "geometry": {"type": "TimeInterval", "coordinates": [1.0, 2.0]}} for k in (1, 4)],
+                                 "geometry": {"type": "TimeInterval", "coordinates": [1.0, 2.0]}} for k in (1, K + 1)],
                "sound_event_annotations": [{"uuid": str(U(ANN_ID + 1)), "sound_event": str(U(SE_ID + 1)), "created_on": T0S}],
-               "sound_event_predictions": [{"uuid": str(U(PRED_ID + 1)), "sound_event": str(U(SE_ID + 4)), "score": 0.5}],
+               "sound_event_predictions": [{"uuid": str(U(PRED_ID + 1)), "sound_event": str(U(SE_ID + K + 1)), "score": 0.5}],
                "clip_annotations": [{"uuid": str(U(0x60)), "clip": str(U(0x10)), "created_on": T0S,
                                      "sound_events": [str(U(ANN_ID + 1))] if t else []}],
                "clip_predictions": [{"uuid": str(U(0x61)), "clip": str(U(0x10)),
@@ -512,6 +517,37 @@ def execute(case):
     return {"paths": KINDS[case["kind"]](case)}
 
 
+def random_cases(rng, tier):
+    """Clip evaluations over a larger universe than TLC enumerates: up to 4 annotations x 4 predictions, match lists of up
+    to 9 entries obtained by disturbing a valid arrangement (or not).  Judged by the same SchemaRel!Valid."""
+    n = 250 if tier == "quick" else 2500
+    for _ in range(n):
+        na, np_ = rng.randrange(0, 5), rng.randrange(0, 5)
+        anns, preds = list(range(1, na + 1)), list(range(1, np_ + 1))
+        rng.shuffle(anns)
+        rng.shuffle(preds)
+        paired = rng.randrange(0, min(na, np_) + 1)
+        ms = [[preds[i], anns[i]] for i in range(paired)] + [[p, 0] for p in preds[paired:]] + [[0, a] for a in anns[paired:]]
+        rng.shuffle(ms)
+        for _ in range(rng.choice([0, 0, 1, 1, 2])):            # disturbances
+            kind = rng.randrange(6)
+            if kind == 0 and ms:
+                ms.pop(rng.randrange(len(ms)))                   # something stays unmatched
+            elif kind == 1 and ms:
+                ms.insert(rng.randrange(len(ms) + 1), list(rng.choice(ms)))   # duplicate
+            elif kind == 2:
+                ms.append([rng.choice([0, 5, 6]), rng.choice([5, 6])])        # foreign target
+            elif kind == 3:
+                ms.append([rng.choice([5, 6]), 0])                             # foreign source
+            elif kind == 4:
+                ms.append([0, 0])                                              # match without sides
+            elif ms:
+                i = rng.randrange(len(ms))
+                ms[i] = [ms[i][0], 0] if ms[i][0] else [0, ms[i][1]]           # one side dropped (no-op if one-sided)
+        pairing = rng.choice(["same", "same", "same", "copy", "copy", "diff_times", "diff_rec"])
+        yield {"kind": "ce", "na": na, "np": np_, "ms": ms[:9], "pairing": pairing}
+
+
 def finding_key(obs, clause):
     c = obs["in"]
     detail = {"clip": lambda: c["enc"], "score": lambda: c["field"], "ce": lambda: c["pairing"]}.get(c["kind"], lambda: "")()
@@ -529,3 +565,19 @@ def evidence_extra():
         built = [p["built"] for p in _score({"kind": "score", "field": "Evaluation.score", "v": v, "enc": "num"})]
         seen[v] = built
     return {"observed_not_judged": {"Evaluation.score built through [ctor, dict, json, aoef]": seen}}
+
+
+MANIFEST = {
+    "text": ("SchemaRel.tla states Valid (same clip; every annotated and predicted event matched exactly once, nothing foreign, "
+             "no match without sides; annotated clips have tasks; start <= end; scores in [0,1]) and what a built object may "
+             "store; MC_SchemaRel.tla transcribes the validators of soundevent.data step by step (before/after mode, list-vs-set "
+             "duplicate tests, set comparisons, ge/le with NaN) and TLC proves accepted <=> Valid for every enumerated "
+             "arrangement and path (the as-found before-mode clip validator is kept as a control with TLC's counterexample); "
+             "every case is then built through the constructor, model_validate, model_validate_json (numbers also as numeric "
+             "strings) and a hand-written AOEF document loaded with io.load, and TLC validates ConstructIffValid, PathsAgree "
+             "and StoredWithinBounds on what was built and stored. Bounded-exhaustive plus random larger clip evaluations."),
+    "note": ("trusted: TLC, binder checks/c04.py (builds inputs for four paths, reads stored values back); AOEF documents are "
+             "self-contained; Evaluation.score is observed, not judged (no bound in the library, outside the anchors); held on "
+             "the tree only with fix commit be663da (Clip after-validator) -- without it the check reports F4"),
+    "design_ref": "DESIGN.md section 4 C04",
+}
